@@ -3,6 +3,7 @@
 //   R <errors> <hex error string>          result of the call
 //   U <hex>                                dump string produced by the call itself (DUMP blocks inside the input)
 //   D <hex>                                dump string of a following, otherwise empty, run "DUMP; -all"
+//   F <errors> <hex error string>          result of that observing run (pending requests of a stopped call run here)
 //   C <n> <name>...                        GetComponentCount / GetComponent
 // ops:  new <hex database path> | run <hex input> | peek <kind> <n>  (friend access: does the engine map hold key n?)
 #include "friend.hpp"
@@ -33,8 +34,8 @@ int main(){
       std::cout<<"U "<<hx::hex(u)<<"\n";
       int e2 = p->RunString(DUMPALL);
       std::string d = p->GetDumpString();
-      if(e2) d = std::string("DUMPRUN-ERROR ")+p->GetErrorString();
       std::cout<<"D "<<hx::hex(d)<<"\n";
+      std::cout<<"F "<<e2<<" "<<hx::hex(e2 ? std::string(p->GetErrorString()) : std::string())<<"\n";
       size_t n = p->GetComponentCount();
       std::cout<<"C "<<n;
       for(size_t i=0;i<n;i++) std::cout<<" "<<p->GetComponent((int)i);
